@@ -327,6 +327,15 @@ def _assigned_before(f, use):
                 for st in blk[: blk.index(node)]:
                     if isinstance(st, ast.Assign) and any(isinstance(t, ast.Name) and t.id == name for t in st.targets):
                         return True
+                    # the statement form of a resolution: `if name is UNSPECIFIED: name = <default>` (the sentinel branch rebinds the
+                    # name on every path through it; in the other branch the name is the caller's value)
+                    if isinstance(st, ast.If):
+                        tst = _sentinel_test(st.test)
+                        if tst and tst[0] == name:
+                            sb = st.body if tst[1] else st.orelse
+                            if sb and any(isinstance(x, ast.Assign) and any(isinstance(t, ast.Name) and t.id == name for t in x.targets) for x in sb) \
+                                    and not any(isinstance(x, (ast.If, ast.For, ast.While, ast.Try)) for x in sb):
+                                return True
         # guarded by `if name is not UNSPECIFIED`
         if isinstance(par, ast.If):
             st = _sentinel_test(par.test)
